@@ -863,11 +863,11 @@ def run_history(rec, case):
                 if first != icall and shared is None:
                     shared = (calls[first][0], what, type(part).__name__,
                               getattr(part, 'text', None) if isinstance(part, TextTemplate) else None)
+    # (structural: reported as a failure only together with a behavioural failure of this history, see below)
+    shared_msg = None
     if shared:
-        rec.fail(f'two rendering calls ({shared[0]}; {shared[1]}) hand out the same mutable {shared[2]} object'
-                 + (f' (text {shared[3]!r})' if shared[3] else '')
-                 + ': what a caller does to the template of one result shows up in other renderings',
-                 'templates-shared-between-renderings')
+        shared_msg = (f'two rendering calls ({shared[0]}; {shared[1]}) hand out the same mutable {shared[2]} object'
+                      + (f' (text {shared[3]!r})' if shared[3] else ''))
     # ---- in-place use of the templates by their holder
     texts = [t for _, tmpls in calls for t in tmpls if isinstance(t, TextTemplate)]
     ko_texts = [t for t in texts if ':hl:`' in t.text]
@@ -914,6 +914,16 @@ def run_history(rec, case):
         if probe.renders:
             rec.extra_renders.append(probe.renders)
         rec.nontrivial = rec.nontrivial or probe.nontrivial
+    if shared_msg:
+        rec.count('history_templates_shared_between_renderings')
+        if any(key.startswith('history-') for _, key in rec.failures):
+            # the sharing is how the in-place use of one rendering reached the later ones
+            rec.fail(shared_msg + ': what the holder did to the template of one result shows up in the later '
+                     'renderings (see the other failures of this history)', 'templates-shared-between-renderings')
+        else:
+            # every later rendering is right (copy-on-join, frozen or simply unaffected): not a violation
+            rec.notes.append('history: ' + shared_msg + '; the later renderings are nevertheless all correct '
+                             '(noted, not a violation)')
     return rec
 
 
@@ -1678,6 +1688,9 @@ def run(ctx):
             ctx.count(key, num)
         for what, key in rec.failures:
             ctx.oracle_failure(what, rec.case, key=key)
+        for note in rec.notes:
+            if note not in ctx.notes and len(ctx.notes) < 10:
+                ctx.notes.append(note)
         ctx.case_seen(rec.case, rec.nontrivial, sample_every=97)
         if rec.renders:
             renders.append((rec.renders, rec.case))
